@@ -42,10 +42,38 @@ theorem isInfixOf_uu (ds : Str) (hd : ∀ c ∈ ds, c ≠ '_') : isInfixOf (py!"
     simp at e
     exact absurd e.1.symm this
 
-theorem parseInt_digits_aux (neg : Bool) (sp ds : Str) (hsp : ∀ c ∈ sp, isPySpace c = true) (hne : ds ≠ [])
+/-- the sign split of `parseInt` -/
+def signSplit (t : Str) : Bool × Str :=
+  match t with
+  | '-' :: r => (true, r)
+  | '+' :: r => (false, r)
+  | r => (false, r)
+
+theorem parseInt_unfold (s : Str) : parseInt s =
+    (let p := signSplit (rstrip (s.dropWhile isPySpace))
+     let okUnderscores : Bool := p.2.head? ≠ some '_' ∧ p.2.getLast? ≠ some '_' ∧ isInfixOf (py!"__") p.2 = false
+     let ds' := p.2.filter (· ≠ '_')
+     if ds' = [] ∨ ds'.all isAsciiDigit = false ∨ okUnderscores = false ∨ ds'.length > intMaxStrDigits then throw .value
+     else pure (if p.1 then - (digitsToNat ds' : Int) else (digitsToNat ds' : Int))) := by
+  rfl
+
+theorem signSplit_minus (r : Str) : signSplit ('-' :: r) = (true, r) := rfl
+
+theorem signSplit_digit (d : Char) (r : Str) (h1 : d ≠ '-') (h2 : d ≠ '+') : signSplit (d :: r) = (false, d :: r) := by
+  unfold signSplit
+  split
+  · rename_i h; simp at h; exact absurd h.1 h1
+  · rename_i h; simp at h; exact absurd h.1 h2
+  · rfl
+
+
+theorem digitsToNat_eq (ds : Str) : digitsToNat ds = Nat.ofDigitChars 10 ds 0 := rfl
+
+/-- `int()` of optional blanks, an optional minus sign and a non-empty run of at most 4300 ASCII digits -/
+theorem parseInt_digits (neg : Bool) (sp ds : Str) (hsp : ∀ c ∈ sp, isPySpace c = true) (hne : ds ≠ [])
     (hd : ∀ c ∈ ds, c.isDigit = true) (hlen : ds.length ≤ 4300) :
     parseInt (sp ++ (if neg then '-' :: ds else ds)) =
-      .ok (if neg then - (Nat.ofDigitChars 10 ds 0 : Int) else (Nat.ofDigitChars 10 ds 0 : Int)) := by
+      .ok (if neg then - (digitsToNat ds : Int) else (digitsToNat ds : Int)) := by
   obtain ⟨d, ds', rfl⟩ := List.exists_cons_of_ne_nil hne
   have hd0 := hd d (by simp)
   have hnu : ∀ c ∈ d :: ds', c ≠ '_' := fun c hc => (digit_ne c (hd c hc)).2.2
@@ -55,24 +83,29 @@ theorem parseInt_digits_aux (neg : Bool) (sp ds : Str) (hsp : ∀ c ∈ sp, isPy
     rw [List.filter_eq_self]; intro c hc; simpa using hnu c hc
   have hall : (d :: ds').all isAsciiDigit = true := by
     rw [List.all_eq_true]; intro c hc; rw [isAsciiDigit_eq]; exact hd c hc
-  cases neg
-  · have h1 : (sp ++ d :: ds').dropWhile isPySpace = d :: ds' := by
-      rw [List.dropWhile_append_of_pos hsp, List.dropWhile_cons_of_neg (by simp [not_space_of_digit d hd0])]
-    have h2 : rstrip (d :: ds') = d :: ds' := rstrip_eq_self _ (fun _ => hlast)
-    simp only [Bool.false_eq_true, if_false]
-    unfold parseInt
-    simp only [h1, h2]
-    have hm : (match d :: ds' with
-                | '-' :: r => (true, r)
-                | '+' :: r => (false, r)
-                | r => (false, r)) = (false, d :: ds') := by
-      split
-      · rename_i h; simp at h; exact absurd h.1 (digit_ne d hd0).1
-      · rename_i h; simp at h; exact absurd h.1 (digit_ne d hd0).2.1
-      · rfl
-    rw [hm]
-    trace_state
-    sorry
-  · sorry
+  have hhead : (d :: ds').head? ≠ some '_' := by simpa using hnu d (by simp)
+  have hgl : (d :: ds').getLast? ≠ some '_' := by
+    rw [List.getLast?_eq_some_getLast (by simp)]
+    intro e; injection e with e
+    exact hnu _ (List.getLast_mem _) e
+  have hinf := isInfixOf_uu (d :: ds') hnu
+  have hlen' : ¬ (d :: ds').length > intMaxStrDigits := by unfold intMaxStrDigits; omega
+  have hsplit : signSplit (rstrip ((sp ++ (if neg then '-' :: d :: ds' else d :: ds')).dropWhile isPySpace)) =
+      (neg, d :: ds') := by
+    cases neg
+    · have h1 : (sp ++ d :: ds').dropWhile isPySpace = d :: ds' := by
+        rw [List.dropWhile_append_of_pos hsp, List.dropWhile_cons_of_neg (by simp [not_space_of_digit d hd0])]
+      have h2 : rstrip (d :: ds') = d :: ds' := rstrip_eq_self _ (fun _ => hlast)
+      simp only [Bool.false_eq_true, if_false, h1, h2]
+      exact signSplit_digit d ds' (digit_ne d hd0).1 (digit_ne d hd0).2.1
+    · have h1 : (sp ++ '-' :: d :: ds').dropWhile isPySpace = '-' :: d :: ds' := by
+        rw [List.dropWhile_append_of_pos hsp, List.dropWhile_cons_of_neg (by decide)]
+      have h2 : rstrip ('-' :: d :: ds') = '-' :: d :: ds' :=
+        rstrip_eq_self _ (fun _ => by simpa [List.getLast_cons] using hlast)
+      simp only [if_true, h1, h2]
+      rfl
+  rw [parseInt_unfold]
+  simp only [hsplit, hfilter, hall, hhead, hgl, hinf, hlen']
+  simp
 
 end Contracts.V2000
